@@ -318,6 +318,16 @@ func (s *Service) Stop(clearFutures bool) bool {
 	if clearFutures {
 		s.futureStore.Protect(false)
 		s.futureStore.Clear()
+
+		// cancel the futures of commands that are still queued as well
+		for queued := true; queued; {
+			select {
+			case cmd := <-s.commandQueue:
+				cmd.future.Cancel(nil)
+			default:
+				queued = false
+			}
+		}
 	}
 
 	return true
